@@ -22,7 +22,7 @@ NPROC = min(16, os.cpu_count() or 4)
 # property -> engine plan
 PLAN = {
     "C01": dict(engine="vsim", level="exploration", extra=["vproc"]),
-    "C02": dict(engine="vsim", level="exploration"),
+    "C02": dict(engine="vsim", level="exploration", extra=["vproc"]),
     "C03": dict(engine="vsim", level="exploration", extra=["vfront"]),
     "C04": dict(engine="vsim", level="exploration"),
     "C05": dict(engine="vsim", level="exploration"),
